@@ -202,6 +202,124 @@ def long_rle_spec(draw, t):
     return base
 
 
+def _vals(seed, n, pf):
+    if pf == 1:
+        return [finite32(mix(seed, j) >> 16) for j in range(n)]
+    return [[finite32(mix(seed, j * pf + c) >> 16) for c in range(pf)] for j in range(n)]
+
+
+def _rle_block(t, n, items, fmt=1):
+    base = {"data3D": {"t": t, "format": fmt, "nFrames": n, "frequency": 100, "startTime": 0, "volume": [0] * 3, "rot": [0] * 9, "trans": [0] * 3, "flag": 0, "tracks": items,
+                       "links": [] if fmt == 1 else None},
+            "emg": {"t": t, "format": 1, "frequency": 1000, "startTime": 0, "nSamples": n, "signals": items, "_chmode": "explicit"},
+            "force3D": {"t": t, "format": 1, "frequency": 100, "startTime": 0, "nFrames": n, "volume": [0] * 3, "rot": [0] * 9, "trans": [0] * 3, "tracks": items},
+            "platData": {"t": t, "format": 1, "frequency": 100, "startTime": 0, "nFrames": n, "plats": items, "_chmode": "explicit"}}[t]
+    return base
+
+
+def _rle_item(t, i, frames):
+    it = {"frames": frames}
+    if t != "platData":
+        it["label"] = f"b{i}"
+    if t in ("emg", "platData"):
+        it["channel"] = i
+    return it
+
+
+def boundary_names():
+    """Deterministic blocks whose COUNTS sit on the boundaries of the integer widths a slip could narrow a field to (2^8, 2^15, 2^16):
+    values per event, items per block, runs per track, frames per track, points per 2D cell, links. Random generation with bounded
+    list sizes reaches these only by luck, so they are enumerated."""
+    out = ["events-values=%d" % n for n in (255, 256, 65535, 65536, 65539)]
+    for k in (255, 256, 257):
+        out += ["events-count=%d" % k, "optical-channels=%d" % k, "platCal-platforms=%d" % k, "calib-cameras=%d" % k] + [f"{t}-items={k}" for t in RLE_TYPES]
+    for t in RLE_TYPES:
+        out += [f"{t}-runs={r}" for r in (127, 128, 255, 256, 257)] + [f"{t}-frames={n}" for n in (32767, 32768, 65535, 65536, 65537)]
+    out += ["data3D-links=%d" % n for n in (255, 256, 65535, 65536)] + ["data2D-cell-points=%d" % n for n in (255, 256, 32767, 32768, 65535)]
+    return out
+
+
+def boundary_spec(name):
+    ONE = 0x3F800000
+    kind, n = name.rsplit("=", 1)
+    n = k = int(n)
+    if kind == "events-values":
+        return {"t": "events", "format": 1, "startTime": 0, "events": [
+            {"label": "first", "type": 0, "values": [ONE]}, {"label": "big", "type": 1, "values": [finite32(mix(n, j) >> 16) for j in range(n)]},
+            {"label": "after", "type": 1, "values": [ONE, ONE + 1]}]}
+    if kind == "events-count":
+        return {"t": "events", "format": 1, "startTime": 0, "events": [{"label": f"e{i}", "type": 0, "values": [ONE + i]} for i in range(k)]}
+    if kind == "optical-channels":
+        return {"t": "optical", "format": 1, "channels": [{"index": i, "lens": "l", "type": "t", "name": f"c{i}", "vp": [0, 0, i, i]} for i in range(k)]}
+    if kind == "platCal-platforms":
+        return {"t": "platCal", "format": 2, "_chmode": "explicit", "plats": [{"channel": i, "label": f"p{i}", "size": [ONE, ONE], "position": [ONE + i] * 12} for i in range(k)]}
+    if kind == "calib-cameras":
+        cam = {"rot": [0] * 9, "trans": [0] * 3, "focus": [0] * 2, "center": [0] * 2, "radial": [0, 0], "decentering": [0, 0], "prism": [0, 0], "vp": [0, 0, 1, 1]}
+        return {"t": "calib", "format": 1, "model": 0, "volume": [0] * 3, "rot": [0] * 9, "trans": [0] * 3, "map": list(range(k)), "cams": [dict(cam, trans=[i, 0, 0]) for i in range(k)]}
+    if kind == "data3D-links":
+        return dict(_rle_block("data3D", 1, [_rle_item("data3D", 0, _vals(1, 1, 3))]), links=[[i, i + 1] for i in range(n)])
+    if kind == "data2D-cell-points":
+        return {"t": "data2D", "format": 2, "nCams": 2, "nFrames": 1, "frequency": 100, "startTime": 0, "flags": 0, "camMap": [0, 1],
+                "cells": [[[[finite32(mix(n, 2 * j) >> 16), finite32(mix(n, 2 * j + 1) >> 16)] for j in range(n)], [[ONE, ONE]]]]}
+    t, what = kind.split("-")
+    pf = PER_FRAME[t]
+    if what == "items":
+        return _rle_block(t, 2, [_rle_item(t, i, _vals(i, 2, pf)) for i in range(k)])
+    if what == "runs":
+        m = 2 * n + 1
+        v = _vals(n, m, pf)
+        return _rle_block(t, m, [_rle_item(t, 0, [v[j] if j % 2 else None for j in range(m)])])
+    v = _vals(n, n, pf)   # frames: one long run, a one-frame gap in the middle, a second run ending at the last frame
+    return _rle_block(t, n, [_rle_item(t, 0, [None if j == n // 2 else v[j] for j in range(n)])])
+
+
+def long_run_names():
+    """Deterministic: one gap-free run long enough to cross any I/O / buffer threshold (8189 .. 65537 frames) in every input dtype, byte
+    order and memory layout, for each run-length coded type"""
+    out = []
+    for t in RLE_TYPES:
+        for n in (8191, 8192, 16384, 65539):
+            if t == "force3D" and n > 20000:
+                n = 20001
+            for dt in ("<f4", "<f8", ">f4", ">f8"):
+                for order in ("C", "F") if PER_FRAME[t] > 1 else ("C",):
+                    out.append(f"{t}|{n}|{dt}|{order}")
+    return out
+
+
+def long_run_case(name):
+    t, n, dt, order = name.split("|")
+    n = int(n)
+    v = _vals(n, n, PER_FRAME[t])
+    return {"spec": _rle_block(t, n, [_rle_item(t, 0, [None] + v[1:-1] + [None])]), "hints": {"dtype": dt, "order": order, "ints": "py", "scalar": "py", "nan": "pos"}}
+
+
+def expand_case(case):
+    """(spec, hints) of a case; enumerated boundary / long-run cases carry only a name (the evidence stays small) and are built here"""
+    if "boundary" in case:
+        return boundary_spec(case["boundary"]), dict(PLAIN_HINTS)
+    if "longrun" in case:
+        c = long_run_case(case["longrun"])
+        return c["spec"], c["hints"]
+    return case["spec"], case.get("hints")
+
+
+def enum_boundary(tier):
+    for name in boundary_names():
+        yield {"boundary": name}
+
+
+def enum_boundary_rle(tier):
+    for name in boundary_names():
+        if name.split("-")[0] in RLE_TYPES and not name.startswith("data3D-links"):
+            yield {"boundary": name}
+
+
+def enum_long_runs(tier):
+    for name in long_run_names():
+        yield {"longrun": name}
+
+
 def long_block_case(tier):
     return st.sampled_from(RLE_TYPES).flatmap(lambda t: st.fixed_dictionaries({"spec": long_rle_spec(t), "hints": HINTS}))
 
